@@ -827,6 +827,7 @@ Inductive op :=
 | OpEvent (i a p : Z) (state : pstate) (expected : bool) (now_mono : Z)
      (* fsm.on_process_state_event(instances[i], payload) *)
 | OpTick (i cnt mtime : Z)            (* instances[i].update_tick(cnt, mtime, _) *)
+| OpTicks (l : list (Z * Z)) (mtime : Z)  (* the same for several instances (i, cnt), one after the other *)
 | OpCheck                             (* starter.check(); stopper.check()  (FiniteStateMachine.next) *)
 | OpCtxInvalidate (ids : list Z)      (* instances FAILED; lost, failed = context.invalidate_failed() *)
 | OpCmdInvalidate                     (* _common_next: starter/stopper.on_instances_invalidation(lost, failed) *)
@@ -918,6 +919,7 @@ Definition op_calls (o : op) : M (list call) :=
   match o with
   | OpEvent i a p state e nm => ev_event i a p state e nm
   | OpTick i cnt mt => ev_tick i cnt mt
+  | OpTicks l mt => do _ <- mmap (fun ic => ev_tick (fst ic) (snd ic) mt) l ;; ret []
   | OpCheck => ret [CCheck KStart; CCheck KStop]
   | OpCtxInvalidate ids => ev_ctx_invalidate ids
   | OpCmdInvalidate => do s <- mget ;; match s_lost s with [] => ret [] | _ => ret [CInval KStart; CInval KStop] end
